@@ -42,7 +42,7 @@ def required(tier):
     req = ['fq2.%s.%s' % (op, fm) for op in ('add', 'sub', 'mul') for fm in FORMS]
     req += ['fq2.neg.v', 'fq2.neg.r', 'fq2.new', 'fq2.real', 'fq2.imaginary', 'fq2.is_even', 'fq2.is_zero', 'fq2.is_zero/zero',
             'fq2.to_slice', 'fq2.from_slice', 'fq2.eq', 'axiom.comm', 'axiom.assoc', 'axiom.distrib', 'axiom.one',
-            'sqr.hook', 'sqr.g2double', 'g2.mixed_add', 'sop.2', 'sop.4', 'carry.mul/0', 'carry.mul/1', 'carry.sop4/2', 'mul/exact-cancellation']
+            'sqr.hook', 'sqr.g2double', 'g2.mixed_add', 'sop.2', 'sop.4', 'carry.mul/0', 'carry.mul/1', 'carry.sop4/2', 'mul/exact-cancellation', 'mul/accumulator-boundary', 'sop.2/accumulator-boundary']
     return req
 
 
@@ -69,6 +69,13 @@ def run(ctx, spec):
             y = x
         elif k == 1:
             y = f2neg(x)
+        elif k == 5 and kind == 'mul':
+            # the imaginary-part accumulator x0*y1 + x1*y0 solved to sit exactly on a boundary of the carry folding
+            got = gen.sop2_boundary(rng)
+            if got:
+                x = (got[0], got[1])
+                y = (got[3], got[2])
+                ctx.classes['mul/accumulator-boundary'] += 1
         elif k in (6, 7) and x[0] and x[1]:
             # exact cancellation: choose y so that one coefficient of x*y is exactly 0, 1 or q-1 although every partial product is non-zero
             tgt = rng.choice([0, 0, 1, q - 1])
@@ -194,6 +201,12 @@ def run(ctx, spec):
                     a[-1] = rm.unmont(A[-1], q)
                     b[-1] = rm.unmont(Bl, q)
                     ctx.count('sop:mont-digit-directed')
+            if T == 2 and rng.random() < 0.35:
+                got = gen.sop2_boundary(rng)
+                if got:
+                    a, b = [got[0], got[1]], [got[2], got[3]]
+                    ctx.count('sop:accumulator-boundary')
+                    ctx.classes['sop.2/accumulator-boundary'] += 1
             v = sum(s * t_ for s, t_ in zip(a, b)) % q
             lines.append('_ sop.%d %s %s' % (T, ' '.join(h32(v_) for v_ in a), ' '.join(h32(v_) for v_ in b)))
             exp.append(('sop.%d' % T, 'ok ' + h32(v), ('sop', tuple(a), tuple(b)), True))
